@@ -166,7 +166,17 @@ func (x *Explorer) Exec(plan *Plan) *Result {
 
 func (x *Explorer) minimise(plan *Plan, v Violation) string {
 	class := v.Class()
-	run := func(p *Plan) *Result { return x.Prop.Run(x.T, p, false) }
+	// Shrinking is bounded in wall-clock time as well as in executions: past the limit every further
+	// candidate counts as "does not reproduce", so the shrinker settles on the smallest plan found so far.
+	// (The replay file is whatever plan comes out; how small it got does not affect its validity.)
+	t0 := time.Now()
+	limit := time.Duration(envInt("VERIF_SHRINK_S", 25)) * time.Second
+	run := func(p *Plan) *Result {
+		if time.Since(t0) > limit {
+			return &Result{}
+		}
+		return x.Prop.Run(x.T, p, false)
+	}
 	small := Shrink(run, plan, class, 400)
 	final := x.Prop.Run(x.T, small, true)
 	exp := v
